@@ -491,6 +491,17 @@ impl<Front: SocketHandler, L: ListenerHandler> Pipe<Front, L> {
     }
 
     pub fn frontend_hup(&mut self, metrics: &mut SessionMetrics) -> SessionResult {
+        // A client that half-closes after its last bytes (request then FIN) is
+        // reported as READABLE | HUP in one event. Bytes it sent may still sit
+        // in the kernel (READABLE not consumed yet) or in the frontend buffer:
+        // read and forward them before the session goes away. `readable` sees
+        // the end of the stream next and `check_connections` closes the
+        // session once nothing is in flight any more.
+        let request_pending =
+            self.frontend_buffer.available_data() > 0 || self.frontend_readiness.event.is_readable();
+        if request_pending && self.backend_socket.is_some() {
+            return SessionResult::Continue;
+        }
         self.log_request_success(metrics);
         self.frontend_status = ConnectionStatus::Closed;
         SessionResult::Close
@@ -614,9 +625,22 @@ impl<Front: SocketHandler, L: ListenerHandler> Pipe<Front, L> {
                 return SessionResult::Close;
             }
             SocketResult::Closed => {
-                self.reset_readiness_for_close();
-                self.log_request_success(metrics);
-                return SessionResult::Close;
+                // End of the client's stream. What was read before it (in this
+                // call or earlier) is still in the frontend buffer: stop reading
+                // and keep the session until `check_connections` finds nothing
+                // in flight, instead of dropping those bytes with the session.
+                self.frontend_status = match self.frontend_status {
+                    ConnectionStatus::Normal => ConnectionStatus::WriteOpen,
+                    ConnectionStatus::ReadOpen => ConnectionStatus::Closed,
+                    s => s,
+                };
+                self.frontend_readiness.interest.remove(Ready::READABLE);
+                self.frontend_readiness.event.remove(Ready::READABLE);
+                if !self.check_connections() {
+                    self.reset_readiness_for_close();
+                    self.log_request_success(metrics);
+                    return SessionResult::Close;
+                }
             }
             SocketResult::WouldBlock => {
                 self.frontend_readiness.event.remove(Ready::READABLE);
@@ -755,6 +779,13 @@ impl<Front: SocketHandler, L: ListenerHandler> Pipe<Front, L> {
                     self.backend_readiness.interest.remove(Ready::WRITABLE);
                     count!(names::backend::BACK_BYTES_OUT, sz as i64);
                     metrics.backend_bout += sz;
+                    // the last bytes of a half-closed client are out: nothing
+                    // may be left in flight that keeps the session alive
+                    if !self.check_connections() {
+                        self.reset_readiness_for_close();
+                        self.log_request_success(metrics);
+                        return SessionResult::Close;
+                    }
                     return SessionResult::Continue;
                 }
 
